@@ -808,7 +808,7 @@ func TestVerif_C04(t *testing.T) {
 	sb.WriteString("From KM Require Import Base.Cases Model.Tokens Model.OIDC Model.TokenCases.\nOpen Scope Z_scope.\n")
 	sb.WriteString("Definition c04_idp : idp :=\n  " + env.coqIdp() + ".\n")
 	sb.WriteString("Definition tok0 : token := {| t_signer := 0%N; t_alg := 0%N; t_tampered := true; t_claims := [] |}.\n")
-	sb.WriteString("Definition c04_treq (redirect client secret : bs) : treq :=\n  {| tr_post := true; tr_grant := gt_authcode; tr_redirect := redirect; tr_code := tok0; tr_verifier := []; tr_vhash := [];\n     tr_basic := Some (client, secret); tr_form_client := []; tr_form_secret := [] |}.\n")
+	sb.WriteString("Definition c04_treq (redirect client secret : bs) : treq :=\n  {| tr_conn := conn_none; tr_post := true; tr_grant := gt_authcode; tr_redirect := redirect; tr_code := tok0; tr_verifier := []; tr_vhash := [];\n     tr_basic := Some (client, secret); tr_form_client := []; tr_form_secret := [] |}.\n")
 	sb.WriteString("Definition toks : list token := [\n")
 	for i, s := range toks {
 		sep := ";"
